@@ -41,7 +41,8 @@ Blame ==
   @@ "dn.recreate" :> {"C07"}
   @@ "exit.loop"  :> {"C03"}
   @@ "exit.loop.closed" :> {"C03", "C05"}
-  @@ "exit.loop.callback" :> {"C03", "C04"}
+  @@ "exit.loop.callback" :> {"C03", "C04"} @@ "exit.loop.callback.owning" :> {"C03", "C04", "C17"}
+  @@ "adv.vt.stopping" :> {"C04"} @@ "adv.pending.stopping" :> {"C04"} @@ "adv.vt.stopping.owning" :> {"C04", "C17"} @@ "adv.pending.stopping.owning" :> {"C04", "C17"}
   @@ "exit.loop.callback.stream" :> {"C03", "C13", "C17"}
   @@ "cb.pb.undrained.mailbox" :> {"C04", "C05", "C03"} @@ "cb.pb.undrained.ctx" :> {"C04", "C03"} @@ "cb.pb.undrained.parent" :> {"C16"}
   @@ "cb.pb.undrained.mailbox.fail" :> {"C04", "C05", "C03", "C06"} @@ "cb.pb.undrained.parent.fail" :> {"C16", "C06"}
@@ -54,7 +55,7 @@ Blame ==
   @@ "oe.res.failed.cancel" :> {"C06", "C02"}
   @@ "tf.state.failed" :> {"C10", "C06"} @@ "adv.pending.failed" :> {"C10", "C06"}
   @@ "exit.how"   :> {"C06"}
-  @@ "exit.client.await" :> {"C04"} @@ "exit.client.await_ref" :> {"C04"} @@ "exit.client.halt" :> {"C04"} @@ "exit.client.try_halt" :> {"C04"}
+  @@ "exit.client.await" :> {"C04", "C02"} @@ "exit.client.await_ref" :> {"C04", "C02"} @@ "exit.client.halt" :> {"C04", "C02"} @@ "exit.client.try_halt" :> {"C04", "C02"}
   @@ "exit.client.join" :> {"C17"} @@ "exit.client.call" :> {"C02"} @@ "exit.client.send" :> {"C02"}
   @@ "oe.actor.clone" :> {"C15"} @@ "oe.actor.downgrade" :> {"C15"} @@ "oe.actor.upgrade" :> {"C15"}
   @@ "oe.actor.sender" :> {"C15"} @@ "oe.actor.caller" :> {"C15"} @@ "oe.actor.weak_sender" :> {"C15"}
@@ -131,6 +132,7 @@ Blame ==
   @@ "q.loops.closed" :> {"C05"} @@ "q.loops.closed.stream" :> {"C05", "C13"} @@ "q.loops.stream" :> {"C13"}
   @@ "q.loops.deq.mailbox" :> {"C02", "C05"} @@ "q.loops.deq.ctx" :> {"C04"} @@ "q.loops.deq.timer" :> {"C10"}
   @@ "q.loops.deq.parent" :> {"C16"} @@ "q.loops.deq.broker" :> {"C09"}
+  @@ "q.loops.deq.parent.sibfail" :> {"C16", "C06"} @@ "blk.loop.deq.parent.sibfail" :> {"C16", "C06"} @@ "un.loop.deq.parent.sibfail" :> {"C16", "C06"}
   @@ "cb.pb.child" :> {"C16", "C05"}
   @@ "q.unresolved" :> {"C02"}
   @@ "q.alive"    :> {"C05", "C10"}
